@@ -34,6 +34,19 @@ pub fn binary<F: RawFloat, const FORMAT: u128>(num: &Number, lossy: bool) -> Ext
         mant: 0,
         exp: 0,
     };
+    let fp_inf = ExtendedFloat80 {
+        mant: 0,
+        exp: F::INFINITE_POWER,
+    };
+
+    // Short-circuit if the value can only be a literal 0 or infinity: this
+    // also keeps the binary exponent below from overflowing an `i32`, and
+    // the normalization from shifting a zero mantissa by 64 bits.
+    if num.mantissa == 0 || num.exponent <= -0x1000 {
+        return fp_zero;
+    } else if num.exponent >= 0x1000 {
+        return fp_inf;
+    }
 
     // Normalize our mantissa for simpler results.
     let ctlz = num.mantissa.leading_zeros();
